@@ -14,8 +14,8 @@ func init() {
 	core.Register(&core.Check{ID: "C13", Title: "interpolation and $env", Build: buildC13})
 }
 
-var c13Segments = []string{"", "x", "}", ":", "é ", "a b", "}}", "\"", "\"w\""}
-var c13EnvValues = []string{"v", "", "123", "true", "null", "a b", "a$b", "1.50", "~", "[x]", "k=v", "dGVzdA==", "=x", "a:b", "{i}", "a\nb", "a$$b", "$x"}
+var c13Segments = []string{"", "x", "}", ":", "é ", "a b", "}}", "\"", "\"w\"", "100% %d%v"}
+var c13EnvValues = []string{"v", "", "123", "true", "null", "a b", "a$b", "1.50", "~", "[x]", "k=v", "dGVzdA==", "=x", "a:b", "{i}", "a\nb", "a$$b", "$x", " v ", "   ", "\tv\n", "%d"}
 
 type c13Ref struct {
 	text string // inside the braces
@@ -308,8 +308,8 @@ func buildC13(tier string) *core.Plan {
 
 	return &core.Plan{
 		Spaces: spaces,
-		Rule: "every template of k+1 $-free literal segments (9 forms incl. double quotes next to the delimiters, '}', ':', unicode) alternating with k references (12 forms: int/string/nested/float/bool paths, $env:V, unset $env:U, four missing paths incl. paths continuing below a scalar, $repeat) for k = 0..2 in full, k = 3 over the first 2 segments x 7 references (thorough: k = 3 in full, k = 4 over 3 segments x all references), " +
-			"as a value and as a key, under every one of 18 environment values; whole-string $env in values, keys and list entries",
+		Rule: "every template of k+1 $-free literal segments (10 forms incl. percent signs, double quotes next to the delimiters, '}', ':', unicode) alternating with k references (12 forms: int/string/nested/float/bool paths, $env:V, unset $env:U, four missing paths incl. paths continuing below a scalar, $repeat) for k = 0..2 in full, k = 3 over the first 2 segments x 7 references (thorough: k = 3 in full, k = 4 over 3 segments x all references), " +
+			"as a value and as a key, under every one of 22 environment values (incl. leading/trailing white space); whole-string $env in values, keys and list entries",
 		Assumptions: []string{"refInterp: the result is the concatenation of the literal segments and Go %v of the referenced scalars; $env values are strings",
 			"an environment value that is itself directive-shaped ($x) at the start of the result is not judged (C07 forbids it in output, C13 wants the literal)",
 			"the worker process owns its environment (one evaluation at a time)"},
